@@ -3,8 +3,45 @@
 
 From Sodg Require Export Sodg.
 
+(** ** capacity and container sizes *)
+
+Definition nb (g : sodg) : nat := length (g_branches g).
+Definition ns (g : sodg) : nat := length (g_stores g).
+
 Lemma cap_set_vtx g v x : cap_of (set_vtx g v x) = cap_of g.
 Proof. unfold cap_of, set_vtx; simpl; apply upd_length. Qed.
+Lemma cap_set_tag g v b : cap_of (set_tag g v b) = cap_of g.
+Proof. apply cap_set_vtx. Qed.
+Lemma cap_set_edges g v e : cap_of (set_edges g v e) = cap_of g.
+Proof. apply cap_set_vtx. Qed.
+Lemma cap_set_prs g v p : cap_of (set_prs g v p) = cap_of g.
+Proof. apply cap_set_vtx. Qed.
+Lemma cap_set_members g b m : cap_of (set_members g b m) = cap_of g.
+Proof. reflexivity. Qed.
+Lemma cap_set_store g b n : cap_of (set_store g b n) = cap_of g.
+Proof. reflexivity. Qed.
+Lemma cap_set_next g n : cap_of (set_next g n) = cap_of g.
+Proof. reflexivity. Qed.
+
+Lemma nb_set_vtx g v x : nb (set_vtx g v x) = nb g. Proof. reflexivity. Qed.
+Lemma nb_set_tag g v b : nb (set_tag g v b) = nb g. Proof. reflexivity. Qed.
+Lemma nb_set_edges g v e : nb (set_edges g v e) = nb g. Proof. reflexivity. Qed.
+Lemma nb_set_prs g v p : nb (set_prs g v p) = nb g. Proof. reflexivity. Qed.
+Lemma nb_set_members g b m : nb (set_members g b m) = nb g.
+Proof. unfold nb, set_members; simpl; apply upd_length. Qed.
+Lemma nb_set_store g b n : nb (set_store g b n) = nb g. Proof. reflexivity. Qed.
+Lemma nb_set_next g n : nb (set_next g n) = nb g. Proof. reflexivity. Qed.
+
+Lemma ns_set_vtx g v x : ns (set_vtx g v x) = ns g. Proof. reflexivity. Qed.
+Lemma ns_set_tag g v b : ns (set_tag g v b) = ns g. Proof. reflexivity. Qed.
+Lemma ns_set_edges g v e : ns (set_edges g v e) = ns g. Proof. reflexivity. Qed.
+Lemma ns_set_prs g v p : ns (set_prs g v p) = ns g. Proof. reflexivity. Qed.
+Lemma ns_set_members g b m : ns (set_members g b m) = ns g. Proof. reflexivity. Qed.
+Lemma ns_set_store g b n : ns (set_store g b n) = ns g.
+Proof. unfold ns, set_store; simpl; apply upd_length. Qed.
+Lemma ns_set_next g n : ns (set_next g n) = ns g. Proof. reflexivity. Qed.
+
+(** ** vertices *)
 
 Lemma vtx_set_vtx g v x w :
   vtx (set_vtx g v x) w = if (v =? w) && (v <? cap_of g) then x else vtx g w.
@@ -18,14 +55,141 @@ Qed.
 Lemma vtx_set_vtx_neq g v x w : v <> w -> vtx (set_vtx g v x) w = vtx g w.
 Proof. intros H. rewrite vtx_set_vtx. apply Nat.eqb_neq in H. rewrite H. reflexivity. Qed.
 
-Lemma members_set_vtx g v x b : members (set_vtx g v x) b = members g b.
-Proof. reflexivity. Qed.
+(** out-of-range reads give the blank default *)
+Lemma vtx_overflow g v : cap_of g <= v -> vtx g v = blank.
+Proof. intros H. unfold vtx. apply nth_overflow. exact H. Qed.
 
-Lemma store_set_vtx g v x b : store (set_vtx g v x) b = store g b.
-Proof. reflexivity. Qed.
+(** a setter that rewrites one field of slot [v] from its current content *)
+Lemma set_vtx_same g v : set_vtx g v (vtx g v) = g.
+Proof.
+  unfold set_vtx, vtx. destruct g as [st br vs nx]; simpl. f_equal.
+  revert v; induction vs as [|h t IH]; intros [|v]; simpl; auto. f_equal. apply IH.
+Qed.
 
-Lemma next_set_vtx g v x : g_next (set_vtx g v x) = g_next g.
-Proof. reflexivity. Qed.
+Section FieldLemmas.
+  Variable g : sodg.
+  Variables v w : nat.
+
+  Lemma tag_set_tag b : tag (set_tag g v b) w = if (v =? w) && (v <? cap_of g) then b else tag g w.
+  Proof. unfold tag, set_tag. rewrite vtx_set_vtx. destruct ((v =? w) && (v <? cap_of g)); reflexivity. Qed.
+  Lemma prs_set_tag b : prs (set_tag g v b) w = prs g w.
+  Proof.
+    unfold prs, set_tag. rewrite vtx_set_vtx. destruct (Nat.eqb_spec v w) as [->|]; simpl; auto.
+    destruct (w <? cap_of g); reflexivity.
+  Qed.
+  Lemma dat_set_tag b : dat (set_tag g v b) w = dat g w.
+  Proof.
+    unfold dat, set_tag. rewrite vtx_set_vtx. destruct (Nat.eqb_spec v w) as [->|]; simpl; auto.
+    destruct (w <? cap_of g); reflexivity.
+  Qed.
+  Lemma edg_set_tag b : edg (set_tag g v b) w = edg g w.
+  Proof.
+    unfold edg, set_tag. rewrite vtx_set_vtx. destruct (Nat.eqb_spec v w) as [->|]; simpl; auto.
+    destruct (w <? cap_of g); reflexivity.
+  Qed.
+
+  Lemma tag_set_edges e : tag (set_edges g v e) w = tag g w.
+  Proof.
+    unfold tag, set_edges. rewrite vtx_set_vtx. destruct (Nat.eqb_spec v w) as [->|]; simpl; auto.
+    destruct (w <? cap_of g); reflexivity.
+  Qed.
+  Lemma prs_set_edges e : prs (set_edges g v e) w = prs g w.
+  Proof.
+    unfold prs, set_edges. rewrite vtx_set_vtx. destruct (Nat.eqb_spec v w) as [->|]; simpl; auto.
+    destruct (w <? cap_of g); reflexivity.
+  Qed.
+  Lemma dat_set_edges e : dat (set_edges g v e) w = dat g w.
+  Proof.
+    unfold dat, set_edges. rewrite vtx_set_vtx. destruct (Nat.eqb_spec v w) as [->|]; simpl; auto.
+    destruct (w <? cap_of g); reflexivity.
+  Qed.
+  Lemma edg_set_edges e : edg (set_edges g v e) w = if (v =? w) && (v <? cap_of g) then e else edg g w.
+  Proof. unfold edg, set_edges. rewrite vtx_set_vtx. destruct ((v =? w) && (v <? cap_of g)); reflexivity. Qed.
+
+  Lemma tag_set_prs p : tag (set_prs g v p) w = tag g w.
+  Proof.
+    unfold tag, set_prs. rewrite vtx_set_vtx. destruct (Nat.eqb_spec v w) as [->|]; simpl; auto.
+    destruct (w <? cap_of g); reflexivity.
+  Qed.
+  Lemma prs_set_prs p : prs (set_prs g v p) w = if (v =? w) && (v <? cap_of g) then p else prs g w.
+  Proof. unfold prs, set_prs. rewrite vtx_set_vtx. destruct ((v =? w) && (v <? cap_of g)); reflexivity. Qed.
+  Lemma dat_set_prs p : dat (set_prs g v p) w = dat g w.
+  Proof.
+    unfold dat, set_prs. rewrite vtx_set_vtx. destruct (Nat.eqb_spec v w) as [->|]; simpl; auto.
+    destruct (w <? cap_of g); reflexivity.
+  Qed.
+  Lemma edg_set_prs p : edg (set_prs g v p) w = edg g w.
+  Proof.
+    unfold edg, set_prs. rewrite vtx_set_vtx. destruct (Nat.eqb_spec v w) as [->|]; simpl; auto.
+    destruct (w <? cap_of g); reflexivity.
+  Qed.
+End FieldLemmas.
+
+(** setters of the other containers do not touch vertices *)
+Lemma vtx_set_members g b m w : vtx (set_members g b m) w = vtx g w. Proof. reflexivity. Qed.
+Lemma vtx_set_store g b n w : vtx (set_store g b n) w = vtx g w. Proof. reflexivity. Qed.
+Lemma vtx_set_next g n w : vtx (set_next g n) w = vtx g w. Proof. reflexivity. Qed.
+Lemma tag_set_members g b m w : tag (set_members g b m) w = tag g w. Proof. reflexivity. Qed.
+Lemma tag_set_store g b n w : tag (set_store g b n) w = tag g w. Proof. reflexivity. Qed.
+Lemma tag_set_next g n w : tag (set_next g n) w = tag g w. Proof. reflexivity. Qed.
+Lemma prs_set_members g b m w : prs (set_members g b m) w = prs g w. Proof. reflexivity. Qed.
+Lemma prs_set_store g b n w : prs (set_store g b n) w = prs g w. Proof. reflexivity. Qed.
+Lemma prs_set_next g n w : prs (set_next g n) w = prs g w. Proof. reflexivity. Qed.
+Lemma dat_set_members g b m w : dat (set_members g b m) w = dat g w. Proof. reflexivity. Qed.
+Lemma dat_set_store g b n w : dat (set_store g b n) w = dat g w. Proof. reflexivity. Qed.
+Lemma dat_set_next g n w : dat (set_next g n) w = dat g w. Proof. reflexivity. Qed.
+Lemma edg_set_members g b m w : edg (set_members g b m) w = edg g w. Proof. reflexivity. Qed.
+Lemma edg_set_store g b n w : edg (set_store g b n) w = edg g w. Proof. reflexivity. Qed.
+Lemma edg_set_next g n w : edg (set_next g n) w = edg g w. Proof. reflexivity. Qed.
+
+(** ** member lists and counters *)
+
+Lemma members_set_members g b m c :
+  members (set_members g b m) c = if (b =? c) && (b <? nb g) then m else members g c.
+Proof. unfold members, set_members, nb; simpl. apply nth_upd. Qed.
+Lemma members_set_vtx g v x b : members (set_vtx g v x) b = members g b. Proof. reflexivity. Qed.
+Lemma members_set_tag g v t b : members (set_tag g v t) b = members g b. Proof. reflexivity. Qed.
+Lemma members_set_edges g v e b : members (set_edges g v e) b = members g b. Proof. reflexivity. Qed.
+Lemma members_set_prs g v p b : members (set_prs g v p) b = members g b. Proof. reflexivity. Qed.
+Lemma members_set_store g b n c : members (set_store g b n) c = members g c. Proof. reflexivity. Qed.
+Lemma members_set_next g n c : members (set_next g n) c = members g c. Proof. reflexivity. Qed.
+
+Lemma store_set_store g b n c :
+  store (set_store g b n) c = if (b =? c) && (b <? ns g) then n else store g c.
+Proof. unfold store, set_store, ns; simpl. apply nth_upd. Qed.
+Lemma store_set_vtx g v x b : store (set_vtx g v x) b = store g b. Proof. reflexivity. Qed.
+Lemma store_set_tag g v t b : store (set_tag g v t) b = store g b. Proof. reflexivity. Qed.
+Lemma store_set_edges g v e b : store (set_edges g v e) b = store g b. Proof. reflexivity. Qed.
+Lemma store_set_prs g v p b : store (set_prs g v p) b = store g b. Proof. reflexivity. Qed.
+Lemma store_set_members g b m c : store (set_members g b m) c = store g c. Proof. reflexivity. Qed.
+Lemma store_set_next g n c : store (set_next g n) c = store g c. Proof. reflexivity. Qed.
+
+Lemma next_set_vtx g v x : g_next (set_vtx g v x) = g_next g. Proof. reflexivity. Qed.
+Lemma next_set_tag g v t : g_next (set_tag g v t) = g_next g. Proof. reflexivity. Qed.
+Lemma next_set_edges g v e : g_next (set_edges g v e) = g_next g. Proof. reflexivity. Qed.
+Lemma next_set_prs g v p : g_next (set_prs g v p) = g_next g. Proof. reflexivity. Qed.
+Lemma next_set_members g b m : g_next (set_members g b m) = g_next g. Proof. reflexivity. Qed.
+Lemma next_set_store g b n : g_next (set_store g b n) = g_next g. Proof. reflexivity. Qed.
+Lemma next_set_next g n : g_next (set_next g n) = n. Proof. reflexivity. Qed.
+
+Create HintDb sodg.
+#[export] Hint Rewrite
+  cap_set_vtx cap_set_tag cap_set_edges cap_set_prs cap_set_members cap_set_store cap_set_next
+  nb_set_vtx nb_set_tag nb_set_edges nb_set_prs nb_set_members nb_set_store nb_set_next
+  ns_set_vtx ns_set_tag ns_set_edges ns_set_prs ns_set_members ns_set_store ns_set_next
+  tag_set_tag prs_set_tag dat_set_tag edg_set_tag
+  tag_set_edges prs_set_edges dat_set_edges edg_set_edges
+  tag_set_prs prs_set_prs dat_set_prs edg_set_prs
+  tag_set_members tag_set_store tag_set_next prs_set_members prs_set_store prs_set_next
+  dat_set_members dat_set_store dat_set_next edg_set_members edg_set_store edg_set_next
+  members_set_members members_set_vtx members_set_tag members_set_edges members_set_prs
+  members_set_store members_set_next
+  store_set_store store_set_vtx store_set_tag store_set_edges store_set_prs store_set_members
+  store_set_next
+  next_set_vtx next_set_tag next_set_edges next_set_prs next_set_members next_set_store next_set_next
+  : sodg.
+
+(** ** checks *)
 
 Lemma chk_v_ok g v : v < cap_of g -> chk_v g v = Ok tt.
 Proof. intros H; unfold chk_v. apply Nat.ltb_lt in H. rewrite H. reflexivity. Qed.
@@ -33,5 +197,71 @@ Proof. intros H; unfold chk_v. apply Nat.ltb_lt in H. rewrite H. reflexivity. Qe
 Lemma chk_v_panic g v : cap_of g <= v -> chk_v g v = Panic PBoundary.
 Proof. intros H; unfold chk_v. apply Nat.ltb_ge in H. rewrite H. reflexivity. Qed.
 
+Lemma chk_b_ok g b : b < nb g -> b < ns g -> chk_b g b = Ok tt.
+Proof.
+  intros H1 H2; unfold chk_b. apply Nat.ltb_lt in H1, H2. unfold nb, ns in *. rewrite H1, H2. reflexivity.
+Qed.
+
+Lemma chk_b_panic g b : nb g <= b \/ ns g <= b -> chk_b g b = Panic PBoundary.
+Proof.
+  intros H; unfold chk_b, nb, ns in *.
+  destruct (Nat.ltb_spec b (length (g_branches g))); destruct (Nat.ltb_spec b (length (g_stores g)));
+    simpl; auto; lia.
+Qed.
+
+(** ** the edge map *)
+
 Lemma mm_get_nil a : mm_get [] a = None.
 Proof. reflexivity. Qed.
+
+Lemma mm_replace_none e a v : mm_replace e a v = None <-> mm_get e a = None.
+Proof.
+  induction e as [|[k w] t IH]; simpl; [tauto|].
+  destruct (label_eqb k a); [split; discriminate|].
+  destruct (mm_replace t a v) eqn:E.
+  - split; [discriminate|]. intros H. apply IH in H. discriminate.
+  - split; [|reflexivity]. intros _. apply IH. reflexivity.
+Qed.
+
+Lemma mm_replace_length e a v e' : mm_replace e a v = Some e' -> length e' = length e.
+Proof.
+  revert e'; induction e as [|[k w] t IH]; simpl; intros e' H; [discriminate|].
+  destruct (label_eqb k a).
+  - inversion H; reflexivity.
+  - destruct (mm_replace t a v) as [t'|]; [|discriminate]. inversion H; simpl. f_equal. apply IH; reflexivity.
+Qed.
+
+Lemma mm_replace_keys e a v e' : mm_replace e a v = Some e' -> map fst e' = map fst e.
+Proof.
+  revert e'; induction e as [|[k w] t IH]; simpl; intros e' H; [discriminate|].
+  destruct (label_eqb k a).
+  - inversion H; reflexivity.
+  - destruct (mm_replace t a v) as [t'|]; [|discriminate]. inversion H; simpl. f_equal. apply IH; reflexivity.
+Qed.
+
+Lemma mm_get_replace e a v e' b :
+  mm_replace e a v = Some e' -> mm_get e' b = if label_eqb a b then Some v else mm_get e b.
+Proof.
+  revert e'; induction e as [|[k w] t IH]; simpl; intros e' H; [discriminate|].
+  destruct (label_eqb k a) eqn:Eka.
+  - inversion H; subst; simpl. apply label_eqb_spec in Eka; subst k.
+    destruct (label_eqb a b); reflexivity.
+  - destruct (mm_replace t a v) as [t'|]; [|discriminate]. inversion H; subst; simpl.
+    destruct (label_eqb k b) eqn:Ekb.
+    + apply label_eqb_spec in Ekb; subst k.
+      destruct (label_eqb a b) eqn:Eab; auto. apply label_eqb_spec in Eab; subst a.
+      rewrite label_eqb_refl in Eka; discriminate.
+    + apply IH; reflexivity.
+Qed.
+
+Lemma mm_get_app_fresh e a v b :
+  mm_get e a = None -> mm_get (e ++ [(a, v)]) b = if label_eqb a b then Some v else mm_get e b.
+Proof.
+  induction e as [|[k w] t IH]; simpl; intros H.
+  - destruct (label_eqb a b); reflexivity.
+  - destruct (label_eqb k a) eqn:Eka; [discriminate|].
+    destruct (label_eqb k b) eqn:Ekb.
+    + destruct (label_eqb a b) eqn:Eab; auto. apply label_eqb_spec in Eab, Ekb; subst.
+      rewrite label_eqb_refl in Eka; discriminate.
+    + apply IH; exact H.
+Qed.
